@@ -370,6 +370,47 @@ def c03_z3str(R):
     R.need(n >= 3, "Z3 string boundary sites not found")
 
 
+@rule(
+    "C03.slicepos",
+    props=("C03",),
+    floor=1,
+    family="GRD",
+    desc="a search (.index / .find) in a slice `s[i:]` whose start comes from an operand is dominated by a comparison "
+    "of that start with len(s): Python slices saturate, so beyond the end `''.index('')` is 0 and the handler would "
+    "report a match at a position that does not exist (SMT-LIB str.indexof gives -1)",
+)
+def c03_slicepos(R):
+    tree = R.tree
+    m = tree.mod(CSTR)
+    n = 0
+    for q, fn in m.functions.items():
+        for c in (x for x in walk_no_nested(fn) if isinstance(x, ast.Call)):
+            f = c.func
+            if not (isinstance(f, ast.Attribute) and f.attr in ("index", "find", "rindex", "rfind")):
+                continue
+            base = f.value
+            if not (isinstance(base, ast.Subscript) and isinstance(base.slice, ast.Slice) and base.slice.lower is not None):
+                continue
+            start = ast.unparse(base.slice.lower)
+            subject = ast.unparse(base.value)
+            n += 1
+            ok = False
+            for t, pol in guards.guards_of(c):
+                txt = ast.unparse(t)
+                if isinstance(t, ast.Compare) and start in txt and f"len({subject})" in txt:
+                    ok = True
+            R.check(
+                ok,
+                m,
+                c,
+                f"{q}: start position is compared with the length before searching the slice",
+                f"{q} searches `{norm(c)}` without first comparing `{start}` with len({subject}): for a start beyond the "
+                f"end the slice is '' and an empty needle 'matches' at offset 0, so the folded result is the start "
+                f"position where the solver answers -1",
+            )
+    R.need(n >= 1, "no search in an operand-positioned slice found (anchor vanished)")
+
+
 # the escape forms Z3's string-literal reader interprets (SMT-LIB 2.6 strings theory: \ud3d2d1d0 and \u{d..})
 _Z3_ESCAPE_WITNESSES = ("\\u0041", "\\u{41}", "\\u{1f600}", "\\ud83d", "\\u{0}")
 
